@@ -567,3 +567,14 @@ Proof.
   cbn [reg_empty r_types r_ids bassoc nassoc]. eexists. split; [reflexivity|]. cbn [r_types r_ids bassoc nassoc].
   rewrite beqb_refl, N.eqb_refl, Ps. split; reflexivity.
 Qed.
+
+Lemma wf_smallest : forall ns id, ns < 65536 -> id < 4294967296 -> wf_id (smallest ns id) = true.
+Proof.
+  intros ns id Hns Hid. unfold smallest. destruct ((ns =? 0) && (id <? 256)) eqn:E1; [cbn [wf_id]; lia|].
+  destruct ((ns <? 256) && (id <? 65535)) eqn:E2; cbn [wf_id]; lia.
+Qed.
+
+Lemma wf_canon : forall n, wf_id n = true -> wf_id (canon n) = true.
+Proof.
+  intros n H. destruct n as [ns id|ns id|ns id|ns s|ns g|ns b|t]; cbn [canon]; try exact H; cbn [wf_id] in H; apply wf_smallest; lia.
+Qed.
